@@ -390,7 +390,10 @@ func init() {
 			smid = -1
 			scfgs = append(scfgs, seqCfg{"be_custom", 4, 0, 0, 0}, seqCfg{"be_writing", 2, 0, 0, 0})
 		}
-		js = append(js, symJobs("c07", "ZZ_C07_Sym", scfgs, smid, 1)...)
+		js = append(js, symJobs("c07", "ZZ_C07_Sym", scfgs[:1], smid, 1)...)
+		// (the custom and write-reset configurations with every middle operation ran past 20 minutes on the loaded
+		// machine: registered with the representative middle operations)
+		js = append(js, symJobs("c07", "ZZ_C07_Sym", scfgs[1:], 3, 1)...)
 		js = append(js, policyJobs("c07", tier)...)
 		// "Expiration only if the deadline had passed", at the level of the timer wheel: one level's sweep from an arbitrary
 		// placement-consistent state (C13's sweep lemma; the label of interest here is c13.sweep.fires_only_expired)
